@@ -240,6 +240,11 @@ class CMapDB:
         )
         for directory in cmap_paths:
             path = os.path.join(directory, filename)
+            # The name comes from the document: never follow it out of the
+            # resource directory (absolute names, "..", symbolic links).
+            real_directory = os.path.join(os.path.realpath(directory), "")
+            if not os.path.realpath(path).startswith(real_directory):
+                continue
             if os.path.exists(path):
                 gzfile = gzip.open(path)
                 try:
